@@ -135,13 +135,31 @@ end R
 /-- `Repr::sqr` / `cubic` / `pow` (mul.rs): component-wise -/
 def sqr (x : Q) : Q := ⟨x.num * x.num, x.den * x.den⟩
 def cubic (x : Q) : Q := ⟨x.num * x.num * x.num, x.den * x.den * x.den⟩
-def pow (x : Q) (n : Nat) : Q := ⟨x.num ^ n, x.den ^ n⟩
+/-- `UBig::pow` at its contract `b ^ n` (C01), evaluated through the shortcuts of integer/src/pow.rs `repr::pow` /
+    `pow_word_base` (exponent 0, base 0, base 1) so that the driver can run the extreme `usize` exponents -/
+def upowK (b n : Nat) : Nat := if n = 0 then 1 else if b = 0 then 0 else if b = 1 then 1 else b ^ n
+/-- `IBig::pow` (integer/src/pow.rs): the sign is negative iff the base is negative and `exp % 2 == 1`, the magnitude is
+    `UBig::pow` of the magnitude -/
+def ipowK (a : Int) (n : Nat) : Int :=
+  if a < 0 ∧ n % 2 = 1 then -((upowK a.natAbs n : Nat) : Int) else ((upowK a.natAbs n : Nat) : Int)
+def pow (x : Q) (n : Nat) : Q := ⟨ipowK x.num n, upowK x.den n⟩
 
 /-- `Repr::neg`, `Repr::abs` (sign.rs), `signum`, `Mul<Sign>` -/
 def neg (x : Q) : Q := ⟨-x.num, x.den⟩
 def abs (x : Q) : Q := ⟨(x.num.natAbs : Int), x.den⟩
 def signum (x : Q) : Q := ⟨x.num.sign, 1⟩
 def mulSign (x : Q) (negative : Bool) : Q := ⟨if negative then -x.num else x.num, x.den⟩
+
+/-- `RBig::sign` / `Relaxed::sign` / `Signed::sign` (sign.rs): the numerator's sign, `Positive` for zero -/
+def isNegative (x : Q) : Bool := decide (x.num < 0)
+/-- `RBig::is_zero` / `Relaxed::is_zero` (rbig.rs) -/
+def isZero (x : Q) : Bool := decide (x.num = 0)
+/-- `RBig::is_one`: numerator and denominator are both one -/
+def R.isOne (x : Q) : Bool := decide (x.num = 1) && decide (x.den = 1)
+/-- `Relaxed::is_one`: `denominator.as_ibig() == &numerator` (3/3 is one) -/
+def X.isOne (x : Q) : Bool := decide ((x.den : Int) = x.num)
+/-- `RBig::is_int`: the denominator is one -/
+def R.isInt (x : Q) : Bool := decide (x.den = 1)
 
 /-- `Inverse for Repr` (div.rs): zero test (`panic_divide_by_0`, present since fix commit 8dae589;
     before it the code returned the pair 1/0), then swap with the sign moved to the numerator. -/
